@@ -81,6 +81,7 @@ def wrap_line(rnd, cmd, k):
 
 class C09(Monitor):
     prop = "C09"
+    quick_cases = 700
     rule = ("command sequences after G28 over {G0-G3, G10, G11, G20, G21, G28, G90, G91, G92, M206, configured extended codes, unknown "
             "G/M/T, sub-codes, lower case} with 0-7 words from X Y Z E F I J R S P L T in spellings {missing value, bare sign, +, "
             "-0, .5, 5., leading zeros, 1e-12..1e15 in plain decimal, repeated letters}, 0-3 regions, random settings, DEBUG logging on "
@@ -91,8 +92,6 @@ class C09(Monitor):
     assumptions = ["arc radius (I/J/R) <= 1e4 units and literals <= 18 digits (planArc is O(arc length); longer literals overflow "
                    "to inf) - stated bounds", "a command exceeding the 2 s watchdog is counted as slow_case and not judged"]
 
-    def budget(self, tier):
-        return dict(workers=4, cases=500) if tier == "quick" else dict(workers=16, cases=0, secs=180, timeout=1500)
 
     def gen_case(self, rnd, tier, k):
         n = rnd.randint(10, 80 if tier == "quick" else 300)
